@@ -11,6 +11,9 @@ INVARIANT RenderInjective
 INVARIANT RenderShape
 INVARIANT NoBracketFusion
 INVARIANT EscapeRoundTrip
+INVARIANT MakerShape
+INVARIANT MakerLaws
 INVARIANT ExportU
 INVARIANT ExportTx
+INVARIANT ExportMk
 CHECK_DEADLOCK FALSE
